@@ -535,10 +535,24 @@ class Interp:
             self.block(st.orelse, env, fi, rets)
             return
         self._loop_body(st, el, env, fi, rets)
-        self.block(st.orelse, env, fi, rets)
+        self._orelse(st, env, fi, rets)
+
+    def _orelse(self, st, env, fi, rets):
+        """for/while ... else: the else body runs only when the loop was not
+        left through `break`."""
+        if not st.orelse:
+            return
+        has_break = any(isinstance(n, ast.Break) for b in st.body for n in _walk_no_loops(b))
+        if not has_break:
+            return self.block(st.orelse, env, fi, rets)
+        e2 = env.copy()
+        self.block(st.orelse, e2, fi, rets)
+        e1 = env.copy()
+        self._merge(env, [(e1, ("break",)), (e2, ("nobreak",))])
 
     def _while(self, st, env, fi, rets):
         self._loop_body(st, None, env, fi, rets)
+        self._orelse(st, env, fi, rets)
 
     def _adopt(self, env, sub):
         for k, v in sub.items():
@@ -1642,6 +1656,17 @@ def _join_container(old, new):
     if old == new:
         return old
     return phi(old, new)
+
+
+def _walk_no_loops(node):
+    """Statements of a loop body that belong to that loop (not nested loops/defs)."""
+    yield node
+    if isinstance(node, (ast.For, ast.While, ast.FunctionDef, ast.AsyncFunctionDef,
+                         ast.ClassDef, ast.Lambda)):
+        return
+    for ch in ast.iter_child_nodes(node):
+        if isinstance(ch, ast.stmt) or isinstance(ch, ast.ExceptHandler):
+            yield from _walk_no_loops(ch)
 
 
 def _walk_own(node):
